@@ -359,11 +359,19 @@ func init() {
 
 // ---------- (c) integration on Layer B ----------
 
+// One step changes the report of ONE copy of one vBucket (or bumps the config revision); the harness then
+// waits until that copy has answered two further OBSERVE_SEQNO requests with the new state. The library's
+// observe loop only starts a round after every callback of the previous round ran, so after the second
+// request the first new reply has certainly been processed: the synchronisation is by request count, not by
+// time. With single-copy steps no mixed intermediate table exists, so the threshold in effect is exactly
+// max over the steps so far of rule(table) and the oracle is two-sided.
 type c07Step struct {
-	WaitMs int         `json:"wait_ms"`
-	Set    [][4]uint64 `json:"set,omitempty"`  // (vb index, copy index, uuid, persisted seq)
-	Feed   int         `json:"feed,omitempty"` // vb index + 1 on which the server streams its next event (0 = none)
-	Bump   bool        `json:"bump,omitempty"` // config revision bump
+	Vb      int    `json:"vb"`
+	Copy    int    `json:"copy"`
+	UUID    uint64 `json:"uuid"`
+	Persist uint64 `json:"persist"`
+	Feed    int    `json:"feed,omitempty"` // number of events the server streams on that vBucket after the step
+	Bump    bool   `json:"bump,omitempty"` // config revision bump instead of a report change
 }
 
 type c07Integ struct {
@@ -377,7 +385,6 @@ type c07Integ struct {
 func c07ExecInteg(sc c07Integ) (string, map[string]bool) {
 	labels := map[string]bool{}
 	const servers, numVb = 4, 8
-	// a dedicated cluster per case: the vBucket map (incl. unassigned replicas) must be in place at bootstrap
 	c := simnodeNew(servers, numVb, sc.Replicas)
 	for _, u := range sc.Unassigned {
 		if u[1] >= 1 && u[1] <= sc.Replicas {
@@ -388,8 +395,8 @@ func c07ExecInteg(sc c07Integ) (string, map[string]bool) {
 	e := newLBFromCluster(c)
 	defer e.close()
 	e.cfg.RollbackMitigation.Disabled = false
-	e.cfg.RollbackMitigation.Interval = 5 * time.Millisecond
-	e.cfg.RollbackMitigation.ConfigWatchInterval = 15 * time.Millisecond
+	e.cfg.RollbackMitigation.Interval = 4 * time.Millisecond
+	e.cfg.RollbackMitigation.ConfigWatchInterval = 10 * time.Millisecond
 	var hookN atomic.Int64
 	c.Lock()
 	for v := 0; v < numVb; v++ {
@@ -406,185 +413,222 @@ func c07ExecInteg(sc c07Integ) (string, map[string]bool) {
 		labels["observe_tmpfail"] = true
 	}
 	c.Unlock()
-	type rec struct {
-		vb  uint16
-		seq uint64
-		t   time.Duration
-	}
 	var mu sync.Mutex
-	var consumed []rec
+	consumed := map[uint16][]uint64{}
 	cons := &fakeConsumer{}
 	cons.onEvent = func(d *delivered) {
 		mu.Lock()
-		consumed = append(consumed, rec{d.Vb, d.Seq, c.Since()})
+		consumed[d.Vb] = append(consumed[d.Vb], d.Seq)
 		mu.Unlock()
 		d.Ctx.Ack()
+	}
+	nConsumed := func(vb uint16) int {
+		mu.Lock()
+		defer mu.Unlock()
+		return len(consumed[vb])
 	}
 	fm := newFakeMeta()
 	disc := &fakeDiscovery{}
 	disc.set(0, uint16(sc.NVb-1))
-	stopCh := make(chan struct{}, 1)
-	st := newRealStream(e, fm, cons, disc, stopCh)
+	st := newRealStream(e, fm, cons, disc, make(chan struct{}, 1))
 	if ok, pv := within(30*time.Second, func() { st.Open() }); !ok || pv != nil {
 		return fmt.Sprintf("Open() with rollback mitigation: returned=%v panic=%v", ok, pv), labels
 	}
 	defer within(30*time.Second, func() { st.Close(false) })
-	next := map[int]uint64{}
-	sent := map[uint16][]uint64{}
-	for _, stp := range sc.Steps {
-		if stp.WaitMs > 0 {
-			time.Sleep(time.Duration(stp.WaitMs) * time.Millisecond)
+
+	// wait until (vb, server) answered k successful OBSERVE_SEQNO requests that arrived after `since`
+	syncCopy := func(vb uint16, srv int, since time.Duration, k int) bool {
+		deadline := time.Now().Add(8 * time.Second)
+		for {
+			n := 0
+			for _, en := range c.Log() {
+				if en.Cmd == cmdObserveSeqNo && en.Vb == vb && en.Node == srv && en.T > since && en.Replied && en.Reply == 0 {
+					n++
+				}
+			}
+			if n >= k {
+				return true
+			}
+			if time.Now().After(deadline) {
+				return false
+			}
+			time.Sleep(time.Millisecond)
 		}
-		c.Lock()
-		for _, s := range stp.Set {
-			vb := int(s[0]) % sc.NVb
-			cp := int(s[1]) % (sc.Replicas + 1)
-			if srv := c.VbMap[vb][cp]; srv >= 0 {
-				c.Persist[[2]int{vb, srv}] = [2]uint64{s[2], s[3]}
+	}
+	// model
+	type cp = c07Copy
+	table := map[uint16][]*cp{} // nil entry = copy not listed in the map
+	threshold := map[uint16]uint64{}
+	rule := func(vb uint16) uint64 {
+		var uuid, min uint64
+		first := true
+		for _, x := range table[vb] {
+			if x == nil {
+				continue
+			}
+			if first {
+				uuid, min, first = x.uuid, x.seq, false
+				continue
+			}
+			if x.uuid != uuid {
+				return 0
+			}
+			if x.seq < min {
+				min = x.seq
 			}
 		}
-		c.Unlock()
+		if first {
+			return 0
+		}
+		return min
+	}
+	for v := 0; v < sc.NVb; v++ {
+		for _, srv := range c.VbMap[v] {
+			if srv < 0 {
+				table[uint16(v)] = append(table[uint16(v)], nil)
+			} else {
+				table[uint16(v)] = append(table[uint16(v)], &cp{})
+			}
+		}
+	}
+	next := map[uint16]uint64{}
+	sent := map[uint16][]uint64{}
+	// expectation check: exactly the events covered by the threshold are delivered
+	check := func(vb uint16) string {
+		want := 0
+		for _, q := range sent[vb] {
+			if q <= threshold[vb] {
+				want++
+			} else {
+				break // later events queue behind the first uncovered one
+			}
+		}
+		deadline := time.Now().Add(5 * time.Second)
+		for nConsumed(vb) < want {
+			if time.Now().After(deadline) {
+				return fmt.Sprintf("vb %d: every listed copy has reported persisted >= %d under one vbUUID (table %s), but only %d of the %d covered events were delivered", vb, threshold[vb], c07ModelStr(table[vb]), nConsumed(vb), want)
+			}
+			time.Sleep(500 * time.Microsecond)
+		}
+		if want < len(sent[vb]) {
+			labels["event_waits"] = true
+			time.Sleep(3 * e.cfg.RollbackMitigation.Interval) // a wrong gate lets it through within a poll or two
+		}
+		if n := nConsumed(vb); n > want {
+			mu.Lock()
+			got := append([]uint64(nil), consumed[vb]...)
+			mu.Unlock()
+			return fmt.Sprintf("vb %d: event seq %d reached the consumer, but the copies never all reported persisted >= %d under one vbUUID (best agreed threshold so far %d; reports now %s)", vb, got[want], got[want], threshold[vb], c07ModelStr(table[vb]))
+		}
+		if want > 0 {
+			labels["event_delivered"] = true
+		}
+		return ""
+	}
+	for _, stp := range sc.Steps {
+		vb := uint16(stp.Vb % sc.NVb)
+		since := c.Since()
 		if stp.Bump {
 			c.BumpRev()
 			labels["config_bump"] = true
-		}
-		if stp.Feed > 0 {
-			vb := (stp.Feed - 1) % sc.NVb
-			if s := c.Stream(uint16(vb)); s != nil {
-				next[vb]++
-				seq := next[vb]
-				s.Marker(seq, seq)
-				s.Mutation(simnodeDoc(seq))
-				sent[uint16(vb)] = append(sent[uint16(vb)], seq)
-			}
-		}
-	}
-	time.Sleep(40 * time.Millisecond)
-	// liveness (generous bound): events covered by every listed copy under one uuid at the end are delivered
-	finalCovered := func(vb uint16, seq uint64) bool {
-		c.Lock()
-		defer c.Unlock()
-		var uuid uint64
-		first := true
-		for _, srv := range c.VbMap[vb] {
-			if srv < 0 {
-				continue
-			}
-			p := c.Persist[[2]int{int(vb), srv}]
-			if first {
-				uuid, first = p[0], false
-			}
-			if p[0] != uuid || p[1] < seq {
-				return false
-			}
-		}
-		return !first
-	}
-	deadline := time.Now().Add(6 * time.Second)
-	for vb, seqs := range sent {
-		for _, s := range seqs {
-			if !finalCovered(vb, s) {
-				labels["event_left_waiting"] = true
-				break // later events of this vBucket wait behind it
-			}
-			for {
-				mu.Lock()
-				ok := false
-				for _, r := range consumed {
-					if r.vb == vb && r.seq == s {
-						ok = true
+			// the new generation starts from scratch and re-learns every copy
+			time.Sleep(3 * e.cfg.RollbackMitigation.ConfigWatchInterval)
+			since = c.Since()
+			for v := 0; v < sc.NVb; v++ {
+				for _, srv := range c.VbMap[v] {
+					if srv >= 0 && !syncCopy(uint16(v), srv, since, 2) {
+						return fmt.Sprintf("vb %d: polling of server %d stopped after a config revision bump", v, srv), labels
 					}
 				}
-				mu.Unlock()
-				if ok {
-					break
-				}
-				if time.Now().After(deadline) {
-					return fmt.Sprintf("vb %d seq %d is persisted on every listed copy under one vbUUID but was not delivered", vb, s), labels
-				}
-				time.Sleep(time.Millisecond)
 			}
-		}
-	}
-	// safety (necessary condition, sound against network delay): before the consumer saw (vb, s) at T, every listed
-	// copy had replied, under one common vbUUID, persisted >= s
-	log := c.Log()
-	mu.Lock()
-	defer mu.Unlock()
-	for _, r := range consumed {
-		c.Lock()
-		row := append([]int(nil), c.VbMap[r.vb]...)
-		c.Unlock()
-		uuids := map[uint64]int{}
-		copies := 0
-		for _, srv := range row {
+		} else {
+			row := c.VbMap[vb]
+			k := stp.Copy % len(row)
+			srv := row[k]
 			if srv < 0 {
 				continue
 			}
-			copies++
-			seen := map[uint64]bool{}
-			for _, en := range log {
-				if en.Cmd == cmdObserveSeqNo && en.Vb == r.vb && en.Node == srv && en.Replied && en.Reply == 0 && en.RepT < r.t && en.ObsPersist >= r.seq {
-					seen[en.ObsUUID] = true
-				}
+			old := *table[vb][k]
+			c.Lock()
+			c.Persist[[2]int{int(vb), srv}] = [2]uint64{stp.UUID, stp.Persist}
+			c.Unlock()
+			table[vb][k] = &cp{stp.UUID, stp.Persist}
+			if old.uuid != stp.UUID && old.seq == stp.Persist && old.uuid != 0 {
+				labels["uuid_flip_same_seq"] = true
 			}
-			for u := range seen {
-				uuids[u]++
+			if !syncCopy(vb, srv, since, 2) {
+				return fmt.Sprintf("vb %d: server %d is no longer polled", vb, srv), labels
+			}
+			if r := rule(vb); r > threshold[vb] {
+				threshold[vb] = r
+			}
+			if k > 0 {
+				labels["replica_report"] = true
 			}
 		}
-		ok := false
-		for _, n := range uuids {
-			if n == copies {
-				ok = true
+		for i := 0; i < stp.Feed; i++ {
+			if s := c.Stream(vb); s != nil {
+				next[vb]++
+				s.Marker(next[vb], next[vb])
+				s.Mutation(simnodeDoc(next[vb]))
+				sent[vb] = append(sent[vb], next[vb])
 			}
 		}
-		if !ok {
-			return fmt.Sprintf("vb %d seq %d reached the consumer at %v, but not every one of the %d listed copies had reported (under one common vbUUID) a persisted seqno >= %d before", r.vb, r.seq, r.t, copies, r.seq), labels
+		for v := range sent {
+			if d := check(v); d != "" {
+				return d, labels
+			}
 		}
-		labels["event_delivered"] = true
 	}
 	return "", labels
 }
 
+type c07Copy struct{ uuid, seq uint64 }
+
+func c07ModelStr(t []*c07Copy) string {
+	s := "["
+	for i, x := range t {
+		if i > 0 {
+			s += " "
+		}
+		if x == nil {
+			s += "unassigned"
+		} else {
+			s += fmt.Sprintf("(%x,%d)", x.uuid, x.seq)
+		}
+	}
+	return s + "]"
+}
+
 func TestC07_Integration(t *testing.T) {
 	rapid.Check(t, func(rt *rapid.T) {
-		sc := c07Integ{Replicas: rapid.IntRange(0, 3).Draw(rt, "replicas"), NVb: rapid.IntRange(1, 3).Draw(rt, "nvb"),
-			TmpFailPct: rapid.SampledFrom([]int{0, 0, 10, 30}).Draw(rt, "tmpfail")}
-		if sc.Replicas > 0 && rapid.Bool().Draw(rt, "hasUnassigned") {
+		sc := c07Integ{Replicas: rapid.IntRange(0, 3).Draw(rt, "replicas"), NVb: rapid.IntRange(1, 2).Draw(rt, "nvb"),
+			TmpFailPct: rapid.SampledFrom([]int{0, 0, 0, 10, 25}).Draw(rt, "tmpfail")}
+		if sc.Replicas > 0 && rapid.IntRange(0, 2).Draw(rt, "hasUnassigned") == 0 {
 			sc.Unassigned = append(sc.Unassigned, [2]int{rapid.IntRange(0, sc.NVb-1).Draw(rt, "uvb"), rapid.IntRange(1, sc.Replicas).Draw(rt, "ucopy")})
 		}
 		uu := rapid.SampledFrom([]uint64{0xA1, 0xA1, 0xA1, 0xB2})
-		lag := false
-		n := rapid.IntRange(3, 10).Draw(rt, "nsteps")
+		n := rapid.IntRange(2, 12).Draw(rt, "nsteps")
+		last := map[[2]int]uint64{}
 		for i := 0; i < n; i++ {
-			stp := c07Step{WaitMs: rapid.SampledFrom([]int{0, 2, 8, 20}).Draw(rt, "wait")}
-			k := rapid.IntRange(0, 4).Draw(rt, "nset")
-			for j := 0; j < k; j++ {
-				s := [4]uint64{uint64(rapid.IntRange(0, sc.NVb-1).Draw(rt, "svb")), uint64(rapid.IntRange(0, sc.Replicas).Draw(rt, "scopy")), uu.Draw(rt, "uuid"), rapid.Uint64Range(0, 6).Draw(rt, "persist")}
-				stp.Set = append(stp.Set, s)
-				if s[1] > 0 || s[2] == 0xB2 {
-					lag = true
-				}
+			stp := c07Step{Vb: rapid.IntRange(0, sc.NVb-1).Draw(rt, "vb"), Copy: rapid.IntRange(0, sc.Replicas).Draw(rt, "copy"), UUID: uu.Draw(rt, "uuid")}
+			key := [2]int{stp.Vb, stp.Copy}
+			switch rapid.IntRange(0, 5).Draw(rt, "kind") {
+			case 0: // the copy changes its history branch but not its seqno
+				stp.Persist = last[key]
+			case 1: // regression
+				stp.Persist = last[key] / 2
+			default:
+				stp.Persist = last[key] + rapid.Uint64Range(0, 3).Draw(rt, "adv")
 			}
-			if rapid.IntRange(0, 2).Draw(rt, "feed") > 0 {
-				stp.Feed = 1 + rapid.IntRange(0, sc.NVb-1).Draw(rt, "fvb")
-			}
-			stp.Bump = rapid.IntRange(0, 14).Draw(rt, "bump") == 14
-			sc.Steps = append(sc.Steps, stp)
-		}
-		// finally every copy catches up under one uuid, so that the liveness clause is exercised too
-		if rapid.Bool().Draw(rt, "catchup") {
-			stp := c07Step{WaitMs: 5}
-			for v := 0; v < sc.NVb; v++ {
-				for cp := 0; cp <= sc.Replicas; cp++ {
-					stp.Set = append(stp.Set, [4]uint64{uint64(v), uint64(cp), 0xA1, 50})
-				}
-			}
+			last[key] = stp.Persist
+			stp.Feed = rapid.SampledFrom([]int{0, 0, 1, 1, 2}).Draw(rt, "feed")
+			stp.Bump = rapid.IntRange(0, 19).Draw(rt, "bump") == 19
 			sc.Steps = append(sc.Steps, stp)
 		}
 		journal("C07", "c07integ", sc)
 		d, labels := c07ExecInteg(sc)
-		if strings.Contains(d, "but was not delivered") {
+		if strings.Contains(d, "were delivered") || strings.Contains(d, "polled") || strings.Contains(d, "polling") {
 			// liveness is bounded by real time: only a miss that repeats in a fresh environment is reported
 			countDiscarded("C07")
 			d, labels = c07ExecInteg(sc)
@@ -593,7 +637,7 @@ func TestC07_Integration(t *testing.T) {
 		if d != "" {
 			violation(rt, "C07", "c07integ", sc, "%s", d)
 		}
-		record("C07", sc, lag && sc.Replicas > 0 && labels["event_delivered"], append(labelList(labels), "integration_cases")...)
+		record("C07", sc, sc.Replicas > 0 && labels["replica_report"] && labels["event_delivered"] && labels["event_waits"], append(labelList(labels), "integration_cases")...)
 	})
 }
 
